@@ -126,6 +126,8 @@ func runC05(c *Check) {
 	c.cutoffIsStrict()
 	c.detachIsUnconditional()
 	c.keptSetForwarded()
+	c.shownTotalUnclamped()
+	c.cutoffIsMagnitude()
 }
 
 // stickyEdgeFlags (R7): the marks of an edge that already exists only move one way when
@@ -258,6 +260,39 @@ func (c *Check) residualFlag() {
 	}
 	if n < 3 {
 		c.undecided("C05-R6", "residual:count", p.relFile(f.Pos()), "the residual flag of newGraph was not found")
+	}
+	// the flat value of a sample goes to its leaf frame only: when the frames below the last
+	// kept one were dropped (the flag is set at the end of the walk) nobody receives it.  The
+	// addSample call that adds flat weight is decided by a test of the flag.
+	for _, b := range body.Blocks {
+		for _, ins := range b.Instrs {
+			call, ok := ins.(*ssa.Call)
+			if !ok || call.Call.StaticCallee() == nil || call.Call.StaticCallee().Name() != "addSample" || len(call.Call.Args) == 0 {
+				continue
+			}
+			if k, isK := call.Call.Args[len(call.Call.Args)-1].(*ssa.Const); !isK || !constBool(k) {
+				continue
+			}
+			decided := false
+			for d := b; d != nil && !decided; d = d.Idom() {
+				id := d.Idom()
+				if id == nil {
+					break
+				}
+				if iff, ok := id.Instrs[len(id.Instrs)-1].(*ssa.If); ok {
+					for ph := range flag {
+						if dependsOnValue(iff.Cond, ph, map[ssa.Value]bool{}, 0) {
+							decided = true
+						}
+					}
+				}
+			}
+			if decided {
+				c.ok("C05-R6", "residual:flat-leaf", p.relFile(call.Pos()), "flat weight is added only when the walk ended on a kept frame", "the addSample(…, flat) call is dominated by a test of the residual flag")
+			} else {
+				c.bad("C05-R6", "residual:flat-leaf", p.relFile(call.Pos()), "flat weight is added without consulting the residual flag: when the leaf frame of a sample was dropped (only an inlined caller at the same address is kept, or the leaf is not in the kept set) its caller is credited with the sample's flat value, which it does not have in the untrimmed report")
+			}
+		}
 	}
 }
 
